@@ -11,6 +11,8 @@ PENDING_REASON = ("not claimed yet: the Rocq model, theorems and correspondence 
 hooks = subprocess.run(["git", "-C", "/repo", "log", "--format=%H %s"], capture_output=True, text=True).stdout.splitlines()
 hook_commits = [l.split()[0] for l in hooks if l.split(" ", 1)[1].startswith("verif hooks")]
 checks = []
+DISABLED = {pid: c["disabled"] for pid, c in PROPS.items() if c.get("disabled")}
+PROPS = {pid: c for pid, c in PROPS.items() if not c.get("disabled")}
 for pid in sorted(PROPS):
     c = PROPS[pid]
     checks.append(dict(
@@ -43,7 +45,7 @@ m = dict(
                             "oracle with vm_compute by coqc"),
     ],
     checks=checks,
-    not_applicable=[dict(property_id=p, reason=PENDING_REASON) for p in ALL if p not in PROPS],
+    not_applicable=[dict(property_id=p, reason=DISABLED.get(p, PENDING_REASON)) for p in ALL if p not in PROPS],
     notes="See DESIGN.md. known_findings.json lists recorded findings and fixed defects.",
 )
 json.dump(m, open("MANIFEST.json", "w"), indent=1)
